@@ -145,6 +145,13 @@ class BuiltinMixin:
       return v.seq if isinstance(v, VMList) else v
     raise Unsupported(f'tuple({type(v).__name__})')
 
+  def bi_dict(self, it, a, k):
+    if not a:
+      return VDict(dict(k))
+    if len(a) == 1 and isinstance(a[0], VDict):
+      return VDict(dict(a[0].d, **k))
+    raise Unsupported(f'dict({type(a[0]).__name__})')
+
   def bi_slice(self, it, a, k):
     a = list(a) + [NONE] * (3 - len(a))
     if len([x for x in a if x is not NONE]) == 1 and a[1] is NONE:
@@ -186,9 +193,9 @@ class BuiltinMixin:
     return VList([self.call_value(a[0], [x], {}) for x in self.iter_concrete(a[1])])
 
   def bi_zip(self, it, a, k):
-    if a and all(isinstance(x, VIter) for x in a):
+    if a and all(isinstance(x, (VIter, VSeq, VMList)) for x in a):
       strict = 'strict' in k and z3.is_true(z3.simplify(self.truth(k['strict'])))
-      return VZip(list(a), strict)
+      return VZip([self.iter_(x) for x in a], strict)
     cols = [self.iter_concrete(x) for x in a]
     if 'strict' in k and len(set(map(len, cols))) > 1:
       self.raise_('ValueError', VStr('zip() arguments have different lengths'))
